@@ -639,13 +639,13 @@ func (s *chunkStream[T]) Next(ctx context.Context) ([]T, error) {
 		s.chunk = append(s.chunk, item)
 		if len(s.chunk) == s.chunkSize {
 			chunk := s.chunk
-			s.chunk = make([]T, 0, s.chunkSize)
+			s.chunk = nil
 			return chunk, nil
 		}
 	}
 	if len(s.chunk) > 0 {
 		chunk := s.chunk
-		s.chunk = make([]T, 0, s.chunkSize)
+		s.chunk = nil
 		return chunk, nil
 	}
 	return nil, End
